@@ -142,16 +142,23 @@ func runGen(req *Req, tmp string) *Resp {
 	}
 	simrt.Begin(req.Sched)
 	defer func() { resp.Rec = simrt.End() }()
+	if dl := simrt.RunWorld(func() { runGenBody(req, resp, path) }); dl != "" {
+		resp.ParsePanic = dl
+	}
+	return resp
+}
+
+func runGenBody(req *Req, resp *Resp, path string) {
 	m, perr, pan := parse(path)
 	if perr != "" || pan != "" {
 		resp.ParseErr, resp.ParsePanic = perr, pan
-		return resp
+		return
 	}
 	if len(m.SyntaxErrors) > 0 {
 		for _, e := range m.SyntaxErrors {
 			resp.SemErrs = append(resp.SemErrs, fmt.Sprintf("%d:%d %s", e.Line, e.Column, e.Msg))
 		}
-		return resp
+		return
 	}
 	fp := simrt.Fingerprint(m)
 	resp.FP0 = sha([]byte(fp))
@@ -195,14 +202,13 @@ func runGen(req *Req, tmp string) *Resp {
 		}
 		resp.Steps = append(resp.Steps, st)
 	}
-	return resp
 }
 
 func runFormat(req *Req) *Resp {
 	resp := &Resp{ID: req.ID}
 	simrt.Begin(req.Sched)
 	defer func() { resp.Rec = simrt.End() }()
-	func() {
+	dl := simrt.RunWorld(func() {
 		defer func() {
 			if r := recover(); r != nil {
 				resp.ParsePanic = firstLine(fmt.Sprint(r)) + " @ " + panicSite(string(debug.Stack()))
@@ -215,7 +221,10 @@ func runFormat(req *Req) *Resp {
 		} else {
 			resp.FormatOK = true
 		}
-	}()
+	})
+	if dl != "" {
+		resp.ParsePanic = dl
+	}
 	return resp
 }
 
